@@ -134,6 +134,16 @@ def _worker(args):
     if n_examples <= 0:
         return stats
 
+    # after the deadline the remaining examples cost nothing to generate
+    _cut = object()
+    _base = mod.strategy(tier)
+
+    @hypothesis.strategies.composite
+    def _gated(draw):
+        if stats.failure is None and time.time() > deadline:
+            return _cut
+        return draw(_base)
+
     @hseed(worker_seed(seed, prop_id, widx))
     @settings(max_examples=n_examples, database=None, deadline=None, derandomize=False,
               report_multiple_bugs=False,
@@ -141,9 +151,9 @@ def _worker(args):
               suppress_health_check=[HealthCheck.too_slow, HealthCheck.data_too_large,
                                      HealthCheck.large_base_example],
               verbosity=hypothesis.Verbosity.quiet)
-    @given(mod.strategy(tier))
+    @given(_gated())
     def test(case):
-        if stats.failure is None and time.time() > deadline:
+        if case is _cut or (stats.failure is None and time.time() > deadline):
             stats.budget_cut += 1
             return
         text = mod.serialize(case)
